@@ -658,6 +658,7 @@ func (env *rEnv) eval(n *rNode) Value {
 		}
 		saved, had := env.vars[name]
 		env.vars[name] = sym(bv)
+		np := len(env.post.pc)
 		body := env.term(n.Args[0])
 		if had {
 			env.vars[name] = saved
@@ -666,6 +667,28 @@ func (env *rEnv) eval(n *rNode) Value {
 		}
 		if skolem {
 			return sym(body)
+		}
+		// axiom instances created while evaluating the body may mention the bound variable: they belong under the
+		// binder (as hypotheses of the body), not among the path's facts where the variable would be free
+		if np <= len(env.post.pc) {
+			var keep, inner []Term
+			keep = append(keep, env.post.pc[:np]...)
+			for _, f := range env.post.pc[np:] {
+				if strings.Contains(f.S, bv.S) {
+					inner = append(inner, f)
+					delete(env.post.declSet, "fact:"+f.S)
+				} else {
+					keep = append(keep, f)
+				}
+			}
+			if len(inner) > 0 {
+				env.post.pc = keep
+				if n.Op == "forall" {
+					body = Implies(And(inner...), body)
+				} else {
+					body = And(append(inner, body)...)
+				}
+			}
 		}
 		return sym(mkT(fmt.Sprintf("(%s ((%s %s)) %s)", n.Op, bv.S, sort.Name, body.S), SBool))
 	}
